@@ -25,7 +25,7 @@ RULE = ('link jobs: 1-4 generated objects (section names from a pool of 4 so tha
         'image size)} plus a small malformed stream (alignment 0/negative, dangling section names, sections placed '
         'twice); non-trivial = distinct job whose objects contain at least two non-empty input sections and whose '
         'implementation outcome is a linked object (not an exception)')
-EXPLANATION = ('Unbounded Coq theorems (all object lists, all layouts) about the hand model of inject_object, '
+EXPLANATION = ('Unbounded Coq theorems (all object lists, all layouts, both settings of the fix switches fix_twice/fix_abs) about the hand model of inject_object, '
                'layout_sections, check_undefined_symbols and Image.data; the model is compared with the real '
                'linker on every run (whole output object). do_relaxations/do_relocations are not modelled (C13, '
                'C11): final links are compared either for relocation-free inputs through ppci.api.link, or with '
@@ -96,6 +96,8 @@ def gen_object(rng, idx, malformed, taken):
             secname = sec['name']
             if malformed and rng.random() < 0.08:
                 secname = rng.choice(['nowhere', None])
+            elif rng.random() < 0.02:
+                secname = None          # absolute symbol (as produced by extra_symbols in a partial link)
         else:
             value, secname = None, None
         symbols.append({'id': ids[k], 'name': name, 'binding': binding, 'value': value, 'section': secname,
@@ -348,8 +350,35 @@ def t_layout(l):
     return '(mkLayout %s %s)' % (t_list(mems), t_opt(l['entry'], coq_str))
 
 
+FLAGS = {'twice': False, 'abs': False}      # set by probe_flags(): which proposed fixes the tree under test contains
+
+
+def probe_flags():
+    """one minimal witness per proposed fix: is the defect still present in the implementation?"""
+    w = {wid: case for wid, _, case, _ in witnesses()}
+    FLAGS['twice'] = run_impl(w['section-in-two-memories']) is Diag
+    FLAGS['abs'] = not relink_fails(w['relink-absolute-symbol'])
+    return dict(FLAGS)
+
+
+def relink_fails(case):
+    from ppci.binutils import linker as lk
+    try:
+        first = link_impl(case)
+    except Exception:   # noqa: BLE001
+        return False
+    try:
+        lk.link([first], partial_link=True)
+        return False
+    except KeyError:
+        return True
+    except Exception:   # noqa: BLE001
+        return False
+
+
 def model_term(case):
-    return 'link %s %s %s %s %s' % (
+    return 'link (mk_lcfg %s %s) %s %s %s %s %s' % (
+        'true' if FLAGS['twice'] else 'false', 'true' if FLAGS['abs'] else 'false',
         t_list(t_obj(o) for o in case['objects']),
         t_opt(case['layout'], t_layout), 'true' if case['partial'] else 'false',
         t_opt(case['entry'], coq_str),
@@ -374,7 +403,8 @@ def wellformed(case):
             return False
         for y in o['symbols']:
             if y['value'] is not None and y['section'] not in names:
-                return False
+                if not (y['section'] is None and FLAGS['abs']):
+                    return False
         ids = {y['id'] for y in o['symbols']}
         for r in o['relocations']:
             if r['section'] not in names or r['symbol_id'] not in ids:
@@ -392,13 +422,15 @@ def wellformed(case):
                     if arg <= 0:
                         return False
                 elif kind == 'section':
+                    if arg in placed and not FLAGS['twice']:
+                        return False
                     placed.append(arg)
                 else:
+                    if '_$%s_' % arg in placed:
+                        return False
                     placed.append('_$%s_' % arg)
                     if kind == 'sectiondata' and arg not in allsecs:
                         return False
-        if len(set(placed)) != len(placed):
-            return False
     return True
 
 
@@ -418,10 +450,15 @@ def expected_errors(case):
     if nent > 1:
         causes.add('multiple-entry')
     if case['layout'] and not case['partial']:
+        placed = []
         for m in case['layout']['memories']:
             for kind, arg in m['inputs']:
                 if kind == 'symdef':
                     defs.append(arg)
+                if kind == 'section':
+                    if arg in placed and FLAGS['twice']:
+                        causes.add('placed-twice')
+                    placed.append(arg)
     if len(set(defs)) != len(defs):
         causes.add('multiple-defined')
     if not case['partial'] and set(refs) - set(defs):
@@ -514,6 +551,9 @@ def spec_check(case, out):
             oy = cands[0]
             if oy[2] != y['binding']:
                 bad.append('symbol %s changed binding' % y['name'])
+            if y['value'] is not None and y['section'] is None:
+                if oy[3] != y['value'] or oy[4] is not None:
+                    bad.append('absolute symbol %s: expected value %d without section, got %s+%s' % (y['name'], y['value'], oy[4], oy[3]))
             if y['value'] is not None and y['section'] in offs:
                 if oy[3] != offs[y['section']] + y['value'] or oy[4] != y['section']:
                     bad.append('symbol %s: expected %s+%d+%d got %s+%s' % (y['name'], y['section'], offs[y['section']],
@@ -685,16 +725,7 @@ def run_witnesses(ctx):
     res = {}
     for wid, what, case, pred in witnesses():
         if wid == 'relink-absolute-symbol':
-            from ppci.binutils import linker as lk
-            try:
-                first = link_impl(case)
-                try:
-                    lk.link([first], partial_link=True)
-                    still = False
-                except KeyError:
-                    still = True
-            except Exception:   # noqa: BLE001
-                still = False
+            still = relink_fails(case)
         else:
             still = pred(run_impl(case))
         res[wid] = still
@@ -836,6 +867,7 @@ def correspondence(ctx, n):
 
 def search(ctx):
     """implementation vs the independent Spec oracle only (used when the tie is broken)"""
+    probe_flags()
     n = 400 if ctx.quick() else 3000
     cases = make_cases(ctx, n)
     outs = [run_impl(c) for c in cases]
@@ -846,7 +878,8 @@ def search(ctx):
 
 
 def run(ctx):
-    ok, _ = ctx.build(['Proofs/C12_linker.vo', 'Lib/Val.vo'])
+    ctx.cov['stages']['fixes_present'] = probe_flags()
+    ok, _ = ctx.build(['Proofs/C12_linker.vo', 'Proofs/C12_errors.vo', 'Proofs/C12_e2e.vo', 'Lib/Val.vo'])
     if ok:
         ctx.check_props('Props/C12.v')
     n = 300 if ctx.quick() else 3000
@@ -880,6 +913,7 @@ def replay(rec):
         return 0
     from vlib import ensure_repo_on_path
     ensure_repo_on_path()
+    probe_flags()
     out = run_impl(case)
     print('implementation outcome:', 'CompilerError' if out is Diag else ('exception' if out is Internal else out.v))
     if wellformed(case):
@@ -891,23 +925,22 @@ def replay(rec):
 
 
 MANIFEST = {
-    'text': 'proof: 20 unbounded Coq theorems (all object lists, all layouts, no fuel hypothesis) about a hand model of the ppci '
+    'text': 'proof: unbounded Coq theorems (all object lists, all layouts, no fuel hypothesis) about a hand model of the ppci '
             'linker (api.link up to check_undefined_symbols: inject_object, merge_global_symbol, inject_symbol, layout_sections, '
-            'Image.data): every input section is recorded at an offset that is the least multiple of its alignment after the '
-            'previous contents (minimal zero padding), its bytes, its defined symbols (value + that offset, same section, name, '
-            'binding) and its relocations (offset + that offset, remapped symbol id) are present unchanged in the final object; '
-            'provided no section is placed twice by the layout, every placed section is aligned, inside [location, location+size) '
-            'of its memory, the sections of an image are ordered and disjoint and Image.data equals the zero-filled memory '
-            'contents; a successful link has no global defined twice and (non-partial) no undefined global; the three '
-            'diagnostics are characterised exactly at the step that raises them. Refutations (vm_compute, replayed on the '
-            'implementation): a section placed twice silently overflows the first memory; non-multiple alignments break the '
-            'final-address alignment.',
-    'note': 'trusted: Coq kernel; the hand model coq/Model/Linker.v, which is compared with the real linker on every run '
-            '(whole output object field by field, 300 links quick / 3000 thorough, through ppci.api.link for relocation-free '
-            'inputs and through a Linker subclass with do_relaxations/do_relocations stubbed otherwise) and whose Spec is '
-            'asserted independently on the real output by a Python oracle. Relocation application and relaxation are C11/C13. '
-            'Whole-link "only if" directions of the error theorem (Diag implies cause) are proved at step level only. '
-            'Known findings: section placed twice, KeyError on section-less defined symbol when relinking, SECTIONDATA copied '
-            'before relocation.',
-    'technique': 'Coq proof over hand model + differential correspondence + independent oracle',
+            'Image.data) with one switch per proposed fix: every input section is recorded at the least multiple of its alignment '
+            'after the previous contents (minimal zero padding); its bytes, defined symbols (value + offset; absolute symbols '
+            'unshifted with fix C12-2) and relocations are present unchanged in the final object; placed sections are aligned, '
+            'inside their memory, ordered and disjoint and Image.data equals the zero-filled memory contents, provided no section is '
+            'placed twice - which follows from the success of the link once fix C12-1 is applied; c12_errors_exact analyses every '
+            'outcome of the whole link: Ok implies no duplicate definition, no entry/extra clash, at most one entry point and (final '
+            'link) every referenced global defined; each CompilerError code implies its cause; any other exception implies an '
+            'ill-formed input (explicit input-level predicate wf_link); well-formed inputs give Ok or a CompilerError with its cause; '
+            'the model never runs out of fuel. Refutations (vm_compute, replayed on the implementation) for the code as found.',
+    'note': 'trusted: Coq kernel; the hand model coq/Model/Linker.v, compared with the real linker on every run (whole output '
+            'object field by field, 300 links quick / 3000 thorough; the model switches are set by probing the tree under test, so '
+            'the check is green before and after fixes/C12-1 and C12-2) and whose Spec is asserted independently on the real output '
+            'by a Python oracle. Relocation application and relaxation are C11/C13. The cause of "Undefined references" is stated '
+            'as "an undefined global symbol with an input name remains", not reduced to "referenced and defined nowhere" (the converse, '
+            'Ok implies every referenced global is defined, is proved). Known finding left: SECTIONDATA copied before relocation.',
+    'technique': 'Coq proof over hand model with fix switches + differential correspondence + independent oracle',
 }
